@@ -1,6 +1,9 @@
 // Comparator seam: stateful, counting, "poisoned when default-constructed".
 #pragma once
 #include "core.hpp"
+#include <cstdlib>
+#include <string>
+
 #include "elems.hpp"
 
 namespace sim {
@@ -18,6 +21,7 @@ inline bool cmp_keys(int mode, int a, int b) {
 template <class E>
 inline int cmp_key_of(const E &e) { return e.k(); }
 inline int cmp_key_of(const KeyProbe &p) { return p.key; }
+inline int cmp_key_of(const std::string &s) { return s.empty() ? 0 : atoi(s.c_str()); }  // "kkkkk:ppppppp" (see ElemIO<std::string>)
 
 /// Tag distinguishes comparator *types* (merge between sets of different comparator types);
 /// Transparent adds is_transparent (heterogeneous lookup with KeyProbe).
